@@ -16,4 +16,5 @@ PROPS = {
     'C12': {'module': 'sim.c12', 'quick': 3000, 'thorough': 150000, 'chunk': 30},
     'C13': {'module': 'sim.c13', 'quick': 3000, 'thorough': 150000, 'chunk': 30},
     'C14': {'module': 'sim.c14', 'quick': 2500, 'thorough': 120000, 'chunk': 30},
+    'C08': {'module': 'sim.world_c08', 'quick': 4000, 'thorough': 250000, 'chunk': 50},
 }
